@@ -12,6 +12,7 @@ Trace ops (one retention service, one store, one catalogue; state is kept betwee
 every trace op answers `<op specific> | <state dump>`.
 -/
 import OG.C14.Model
+import OG.C14.IndexDriver
 
 namespace OG.C14
 
@@ -155,7 +156,10 @@ def stepTrace (σ : Option St) (ws : List String) : Option St × String :=
     | _, _, _, _ => (some σ, "bad-op")
   | _, _ => (σ, "bad-op")
 
-def stepLine (σ : Option St) (line : String) : Option St × String :=
+/-- driver state: the trace machine of `Model.lean` and the index-side machine of `Index.lean`. -/
+abbrev DSt := Option St × Option Ix.St
+
+def stepLine1 (σ : Option St) (line : String) : Option St × String :=
   match (line.trimAscii.toString.splitOn " ").filter (· ≠ "") with
   | ["isx", d, rel] =>
     match d.toInt?, rel.toInt? with
@@ -168,7 +172,12 @@ def stepLine (σ : Option St) (line : String) : Option St × String :=
   | "t" :: ws => stepTrace σ ws
   | _ => (σ, "bad-op")
 
-partial def loop (h out : IO.FS.Stream) (σ : Option St) : IO Unit := do
+def stepLine (σ : DSt) (line : String) : DSt × String :=
+  match (line.trimAscii.toString.splitOn " ").filter (· ≠ "") with
+  | "x" :: ws => let (x, ans) := Ix.stepX σ.2 ws; ((σ.1, x), ans)
+  | _ => let (s, ans) := stepLine1 σ.1 line; ((s, σ.2), ans)
+
+partial def loop (h out : IO.FS.Stream) (σ : DSt) : IO Unit := do
   let line ← h.getLine
   if line.isEmpty then return ()
   let (σ', ans) := stepLine σ line
@@ -176,7 +185,7 @@ partial def loop (h out : IO.FS.Stream) (σ : Option St) : IO Unit := do
   loop h out σ'
 
 def main : IO Unit := do
-  loop (← IO.getStdin) (← IO.getStdout) none
+  loop (← IO.getStdin) (← IO.getStdout) (none, none)
 
 end OG.C14
 
